@@ -31,6 +31,9 @@ func workQuery(ck *checker, name string, min int, empty bool, run func(work []fl
 		if empty {
 			// known: for empty problems the quick return reports 1 although the argument check demands more
 			ck.class = queryEmptyClass
+			if ck.quietEmpty {
+				return imax(1, min)
+			}
 		}
 		ck.failf("%s query: work[0] = %v is below the documented minimum %d (calling with lwork = work[0] panics)", name, w, imax(1, min))
 		ck.class = old
